@@ -12,7 +12,8 @@ from vt.props import common as cm
 PID = "C04"
 RULE = (
     "Hypothesis-generated scenarios with finite A in 1..4 and P in 0..4, backlogs of 0..3*(A+P+2) ackable messages; "
-    ">=50% of cases come from a saturation family (burst arrivals of >= A+P+2 messages, durations >= 1 s), the rest "
+    ">=50% of cases come from a saturation family (burst arrivals of >= A+P+2 messages, durations >= 1 s; in a third of "
+    "them preceded by 1-3 messages whose ack callback raises, i.e. whose processing ends with an escaping exception), the rest "
     "from free arrival grids, durations 0-3 s, a few malformed/unknown messages, optional stop. Oracle at every "
     "trace index: (#well-formed messages yielded by the broker) - (#of those whose last observable event has "
     "happened) <= A+P+1. Tightness is measured (cases reaching exactly A+P+1 / A+P). "
@@ -28,12 +29,18 @@ def scenario() -> Any:
         fam = d.pop("family")
         extra = d.pop("extra")
         msgs = d["msgs"]
-        if fam == "burst":
+        faults = d.pop("faults")
+        if fam in ("burst", "faulty_burst"):
             n = A + P + 2 + extra
             durs = d.pop("burst_durs")
             t0 = d.pop("burst_at")
-            msgs = [{"kind": "async", "at": t0, "dur": durs[k % len(durs)], "out": "ret", "ack": "sync", "timeout": None}
-                    for k in range(n)] + msgs[:2]
+            pre = []
+            if fam == "faulty_burst":
+                # messages whose processing ends with an exception escaping the callback (the ack callback raises)
+                pre = [{"kind": "async", "at": 0.0, "dur": 0.0, "out": "ret", "ack": f, "timeout": None} for f in faults]
+                t0 = cm.r9(t0 + 0.6)
+            msgs = pre + [{"kind": "async", "at": t0, "dur": durs[k % len(durs)], "out": "ret", "ack": "sync", "timeout": None}
+                          for k in range(n)] + msgs[:2]
         else:
             d.pop("burst_durs")
             d.pop("burst_at")
@@ -53,7 +60,8 @@ def scenario() -> Any:
                      outs=("ret", "ret", "ret", "ValueError", "NoResult"), acks=("sync", "async"))
     return st.fixed_dictionaries({
         "A": st.integers(1, 4), "P": st.integers(0, 4),
-        "family": st.sampled_from(["burst", "burst", "free"]),
+        "family": st.sampled_from(["burst", "burst", "faulty_burst", "free"]),
+        "faults": st.lists(st.sampled_from(["sync_fail", "async_fail"]), min_size=1, max_size=3),
         "extra": st.integers(0, 6),
         "burst_durs": st.lists(st.sampled_from([1.0, 1.0, 2.0, 3.0, 0.35]), min_size=1, max_size=4),
         "burst_at": st.sampled_from([0.0, 0.0, 0.3, 0.45]),
